@@ -58,7 +58,7 @@ def c07_program(rng: random.Random, tier="quick"):
             elif r < 0.95:
                 prog.append(f"sleep:{rng.choice([0.01, 0.2, 1.0])}")
             else:
-                prog.append("move")
+                prog.append(rng.choice(["move", "gmove"]))
         if ti == special_at and mode in ("replace", "zombie"):
             prog.append("replace")
             if mode == "zombie":
